@@ -438,7 +438,7 @@ func sConcHarness(raw json.RawMessage, cfg vrt.Config) (vrt.Result, Outcome) {
 		}
 		vrt.Join(ids...)
 		vrt.SetBranching(false)
-		for _, o := range []sOp{{K: "GETATTR", Ino: 2}, {K: "READ", Ino: 2, Off: 0, Cnt: 8192}} {
+		for _, o := range []sOp{{K: "GETATTR", Ino: 2}, {K: "READ", Ino: 2, Off: 0, Cnt: 8192}, {K: "GETATTR", Ino: 3}, {K: "GETATTR", Ino: 31}, {K: "READ", Ino: 3, Off: 0, Cnt: 8192}} {
 			st := vrt.Steps() + 1
 			hist = append(hist, lin.Op{Client: 99, Inv: st, Ret: st, In: o, Out: sDo(srv, o)})
 		}
@@ -572,11 +572,18 @@ func C17(r *report.Report, tier string) {
 		{Clients: [][]sOp{{W(0, 200, 0x11)}, {{K: "SETATTR", Ino: 2, Size: 50}}, {{K: "READ", Ino: 2, Off: 0, Cnt: 4096}, {K: "GETATTR", Ino: 2}}}},
 		{Clients: [][]sOp{{W(0, 100, 0x11), W(100, 100, 0x12)}, {{K: "GETATTR", Ino: 2}, {K: "READ", Ino: 2, Off: 50, Cnt: 100}}}},
 		{Clients: [][]sOp{{W(0, 4096, 0x21)}, {W(0, 1, 0x22)}, {{K: "GETATTR", Ino: 2}}}},
+		// two different files (their inodes share one disk block)
+		{Clients: [][]sOp{{W(0, 100, 0x31)}, {{K: "WRITE", Ino: 3, Off: 0, Cnt: 200, Pat: 0x32}}, {{K: "SETATTR", Ino: 31, Size: 300}}}},
 	}
 	var sums []*ExploreSummary
-	for _, h := range hs {
-		s := ExploreAll(r, "c17.conc", h, bound, vrt.PDiskW|vrt.PDiskR|vrt.PUnlock, false)
-		if len(s.Outcomes) < 2 {
+	for hi, h := range hs {
+		b := bound
+		independent := hi == len(hs)-1 // different files: one outcome is what the property demands
+		if independent {
+			b = bound - 1
+		}
+		s := ExploreAll(r, "c17.conc", h, b, vrt.PDiskW|vrt.PDiskR|vrt.PUnlock, false)
+		if len(s.Outcomes) < 2 && !independent {
 			r.Violate(report.Violation{Sig: "vacuous-harness", Detail: fmt.Sprintf("%+v", h)})
 		}
 		r.Sample(map[string]interface{}{"concurrent_harness": h, "executions": s.Execs, "distinct_outcomes": len(s.Outcomes)})
